@@ -237,7 +237,7 @@ class E1:
         (bounded and away from zero, bounded, the solver's own) because a model may sit on a point where the
         difference is below the float tolerance."""
         models = []
-        for strat in ("nonzero", "bounded"):
+        for strat in ("distinct", "nonzero", "bounded"):
             m = self._polish(hyps, goal, strat)
             if m is not None:
                 models.append(m)
@@ -347,8 +347,13 @@ class E1:
             s.add(a)
         for v in vs:
             s.add(v >= -4, v <= 4)
-            if strategy == "nonzero":
+            if strategy in ("nonzero", "distinct"):
                 s.add(z3.Or(v >= z3.RealVal(1) / 2, v <= -z3.RealVal(1) / 2))
+        if strategy == "distinct" and 1 < len(vs) <= 60:
+            s.add(z3.Distinct(*vs))
+            for i_, a_ in enumerate(vs[:12]):  # also keep absolute values apart (avoids x = -y cancellations)
+                for b_ in vs[i_ + 1:12]:
+                    s.add(a_ + b_ != 0)
         if s.check() == z3.sat:
             return s.model()
         return None
